@@ -281,6 +281,18 @@ def output_files_problems(sc, cfg, res):
             leaf = want['hierarchy'][-1]
             if sorted(emb.get(leaf, {}).keys()) != sorted(want[leaf].keys()):
                 problems.append(('property', 'embedded taxonomy has other leaves than the input taxonomy', 'c15-embedded-tree'))
+    # flatten: the root's marker list is the union of EVERY list of the table (c08_flatten_unions), restricted to the
+    # genes of the query; and it is the only list reported
+    if cfg.get('flatten'):
+        mg = out.get('marker_genes', {})
+        qset = set(pipeline.gname(g) for g in sc.query_genes)
+        rset = set(pipeline.gname(g) for g in sc.ref_genes)
+        union = set(pipeline.gname(g) for v in sc.markers.values() for g in v)
+        want = sorted(g for g in union if g in qset and g in rset)
+        got = sorted(mg.get('None', []))
+        if got != want:
+            problems.append(('property', f'flattened run: the root uses / reports {got}, the union of all marker lists present in the query '
+                             f'is {want}', 'c08-flatten-union'))
     # HDF5 output read back
     h5 = cfg.get('hdf5_result_path')
     if h5 and pathlib.Path(h5).exists():
@@ -355,6 +367,9 @@ def gen_config_variation(rng, sc):
         drop = 'nonexistent_level'
     elif r < 0.5:
         flatten = True
+    elif r < 0.58 and len(lv) > 1:
+        flatten = True                     # both: a level is dropped, then the rest is flattened
+        drop = rng.choice(lv[:-1])
     return dict(flatten=flatten, drop_level=drop,
                 chunk_size=rng.randrange(1, len(sc.cell_ids) + 4),
                 n_processors=rng.randrange(1, 5),
